@@ -33,6 +33,12 @@ Definition astep (w : aworld) (o : op) : aworld :=
       | None => w
       end
   | SaveFail _ => w
+  | Write sid =>
+      match nth_error (asess w) sid with
+      | Some l => {| afile := map (fun x => (fst (fst x), if ats w then snd (fst x) else None)) l;
+                     asess := asess w; ats := ats w |}
+      | None => w
+      end
   | NewSession => with_sess w (asess w ++ [map (fun x => (fst x, snd x, false)) (afile w)])
   | Delete sid off => with_sess w (update_nth sid (fun l => adelete l off) (asess w))
   | Clear sid => with_sess w (update_nth sid (fun _ => []) (asess w))
